@@ -73,7 +73,25 @@ def make_scratch(prefix="mila-verif-kani."):
 def inject(tmp, cfg, log):
     for inj in cfg.get("inject", []):
         path = os.path.join(tmp, inj["file"])
+        if "new_file" in inj:
+            # a file that exists only in the scratch copy (e.g. the HashMap stand-in module)
+            shutil.copy(os.path.join(VERIF, "contracts", inj["new_file"]), path)
+            log.append("new file %s <- %s" % (inj["file"], inj["new_file"]))
+            continue
         src = open(path).read()
+        if "append_text" in inj:
+            src = src.rstrip("\n") + "\n\n" + inj["append_text"]
+            log.append("append %s <- %r" % (inj["file"], inj["append_text"]))
+            open(path, "w").write(src)
+            continue
+        if "replace_line" in inj:
+            # the one non-additive edit: a `use` line redirected to a stand-in type (logged; see DESIGN 8)
+            if src.count(inj["replace_line"] + "\n") < 1:
+                raise rsx.ExtractError("line to redirect not found in %s: %s" % (inj["file"], inj["replace_line"]))
+            src = src.replace(inj["replace_line"] + "\n", inj["with"] + "\n", 1)
+            log.append("use-line redirected in %s: %r -> %r" % (inj["file"], inj["replace_line"], inj["with"]))
+            open(path, "w").write(src)
+            continue
         if "append_file" in inj:
             text = open(os.path.join(VERIF, "contracts", inj["append_file"])).read()
             src = src.rstrip("\n") + "\n\n" + text
